@@ -144,6 +144,12 @@ def sample_collection(seed=0, with_join=True, with_coords=False, with_derived=Tr
     dc = DataCollection([d1, d2, d3])
     dc.add_link(ComponentLink([d1.id['x']], d3.id['w'], using=None) if False else ComponentLink([d1.id['x']], d3.id['w']))
     if with_join:
+        # a link whose inputs live partly in the target's own dataset and partly in another one (registered function, saved by name)
+        from bounded.c02_session import register_functions, _volume2
+        register_functions()
+        dc.add_link(ComponentLink([d3.id['w'], d1.id['y']], d3.id['k2'] if False else d2.id['u'], using=_volume2) if False else
+                    ComponentLink([d1.id['y'], d3.id['k']], d1.id['x'], using=_volume2))
+    if with_join:
         d3.join_on_key(d1, 'k', 'y') if False else d1.join_on_key(d3, 'y', 'k')
     g1 = dc.new_subset_group('low x', d1.id['x'] < 2.5)
     g2 = dc.new_subset_group('range', (d3.id['w'] > 15) & (d3.id['w'] < 35))
@@ -161,7 +167,7 @@ ASPECTS_BY_DATA_VERSION = {
 
 
 def _aspects(vd, vc, with_join):
-    aspects = set(ASPECTS_BY_DATA_VERSION[vd]) | {'n_data'}
+    aspects = set(ASPECTS_BY_DATA_VERSION[vd]) | {'n_data', 'n_links', 'linked'}       # links are recorded by every DataCollection version
     if vc >= 2:
         aspects |= {'groups', 'n_groups'}
     if vd < 3 or not with_join:
@@ -186,7 +192,7 @@ def _old_format_case(vd, vc, with_join, with_coords, with_derived):
     if not dd:
         return None
     # classification: is the only difference the arithmetic derived component `z` of the first dataset?
-    only_z = all(('values.z' in x) or ('components' in x and "'z'" in x) for x in dd)
+    only_z = all(('values.z' in x) or ('components' in x and "'z'" in x) or ('.linked' in x and "'z'" in x) for x in dd)
     if only_z and with_derived:
         return ("arithmetic-derived-component-dropped", '; '.join(dd[:3]))
     return ("differs:" + dd[0].split(':')[0].split('.')[-1], '; '.join(dd[:3]))
@@ -260,15 +266,62 @@ def vdict_native(R, tier, seed):
                        "    if got and exp: n[item] = v\n    bad = bad or got != exp or any((it in d) != (it in n) for it in 'kj')\nsys.exit(1 if bad else 0)\n" % (seq,))
 
 
+def late_registration(R):
+    """a saver registered after objects of that class (or of a subclass that so far inherited a saver) were already saved is used
+    from then on: every save uses the newest registered version of the first class in the MRO that has one"""
+    from glue.core.state import GlueSerializer, GlueUnSerializer, saver, loader
+
+    class Quantity(object):
+        def __init__(self, v):
+            self.v = v
+
+    class Tagged(Quantity):
+        pass
+
+    @saver(Quantity)
+    def _s1(q, context):
+        return dict(v=q.v)
+
+    @loader(Quantity)
+    def _l1(rec, context):
+        return Quantity(rec['v'])
+    q, t = Quantity(3), Tagged(4)
+    first = (GlueSerializer(q).dumps(), GlueSerializer(t).dumps())
+
+    @saver(Quantity, version=2)
+    def _s2(q, context):
+        return dict(value=q.v, unit='m')
+
+    @loader(Quantity, version=2)
+    def _l2(rec, context):
+        return Quantity(rec['value'])
+
+    @saver(Tagged)
+    def _st(q, context):
+        return dict(v=q.v, tag='t')
+
+    @loader(Tagged)
+    def _lt(rec, context):
+        return Tagged(rec['v'])
+    second = (GlueSerializer(q).dumps(), GlueSerializer(t).dumps())
+    R.count(('late', 'version'), 'late-registration')
+    R.count(('late', 'subclass'), 'late-registration')
+    if '"_protocol": 2' not in second[0] or '"unit"' not in second[0]:
+        R.fail("late-registration|newer-version-ignored", "a version-2 saver registered after a first save is not used by the next save: %s" % second[0], None)
+    if '"tag"' not in second[1]:
+        R.fail("late-registration|subclass-saver-ignored", "a saver registered for a subclass after a first save (through the inherited saver) is not used by the next save: %s" % second[1], None)
+
+
 def run(tier, seed, R):
     R.rule = ("[E] every entry of the saver/loader registries and every row of the rename table of the current tree (exhaustive); "
               "[B] the sample collection written in every (Data version x DataCollection version) format and loaded back, compared on the "
-              "aspects that version records; all assignment sequences of length <= N on the real VersionedDict. "
+              "aspects that version records (incl. a link whose inputs live in two datasets); all assignment sequences of length <= N on the real VersionedDict; savers registered after a first save. "
               "non-trivial = distinct registry entry / table row / format pair / sequence with >1 distinct operations")
     R.exhaustive = True
     registries(R)
     patch_table(R)
     vdict_native(R, tier, seed)
     old_formats(R, tier)
+    late_registration(R)
     R.samples.append({"old-format": "sample collection written as Data v3 / DataCollection v2, loaded, compared on label/values/subsets/style/key_joins/groups"})
     R.samples.append({"patch-row": "glue.clients.ds9norm.DS9Normalize -> ... -> glue.viewers.image.compat.DS9Compat: rank 2, importable"})
